@@ -420,6 +420,18 @@ let do_sl line args res =
            end else mismatch line ("ok in [" ^ hz l ^ "," ^ hz h ^ "]"))
   | _ -> ()
 
+(* ------------------------------------------------------------ class tx: Commit under a commit-wait constraint *)
+let do_tx line args res =
+  incr ncases;
+  match args, res with
+  | [mode; causal; _; _; _], ir :: bound :: start :: _ ->
+      bump ("tx:mode" ^ mode ^ ":causal" ^ causal ^ ":" ^ (if ir = "err" then "err" else "ok"));
+      if ir <> "err" then begin
+        let ts = zh (String.sub ir 3 (String.length ir - 3)) in
+        prop "commit_ts_gt_constraint" (zh bound <! ts) line ("commit ts " ^ hz ts ^ " constraint " ^ bound ^ " start ts " ^ start)
+      end
+  | _ -> ()
+
 let () =
   let nlines = ref 0 in
   read_lines (fun line ->
@@ -432,11 +444,11 @@ let () =
         let verdict = List.nth rest (List.length rest - 1) in
         prop name (verdict = "pass") line ""
     | cls :: rest ->
-        let starts = (match rest with "begin" :: _ -> true | _ -> cls = "cw" || cls = "ar" || cls = "bg" || cls = "st" || cls = "mo" || cls = "iv" || cls = "sl" || cls = "fs") in
+        let starts = (match rest with "begin" :: _ -> true | _ -> cls = "cw" || cls = "ar" || cls = "bg" || cls = "st" || cls = "mo" || cls = "iv" || cls = "sl" || cls = "fs" || cls = "rf" || cls = "tx") in
         if starts then cur_case := [];
         cur_case := input_part line :: !cur_case;
         bump (cls ^ ":" ^ (match rest with op :: _ when cls <> "cw" && cls <> "sl" -> op | _ -> ""));
-        if res <> [] && cls <> "bg" && cls <> "st" && cls <> "fs" then Hashtbl.replace distinct (cls ^ (String.concat "\t" (List.tl args)) ^ "=>" ^ String.concat "\t" res) ();
+        if res <> [] && cls <> "bg" && cls <> "st" && cls <> "fs" && cls <> "rf" then Hashtbl.replace distinct (cls ^ (String.concat "\t" (List.tl args)) ^ "=>" ^ String.concat "\t" res) ();
         (try
           (match cls with
            | "ar" -> do_ar line rest res
@@ -444,6 +456,7 @@ let () =
            | "sf" -> do_sf line rest res
            | "cw" -> do_cw line rest res
            | "lo" -> do_lo line rest res
+           | "tx" -> do_tx line rest res
            | "iv" -> do_iv line rest res
            | "sl" -> do_sl line rest res
            | _ -> ())
